@@ -347,6 +347,7 @@ pub fn sites(tier: Tier) -> Vec<Site> {
                     let mut c = crate::choppy::Choppy::new(f.bytes.clone(), m, k);
                     // every third read call is interrupted first when the cut pattern is the alternating one
                     c.interrupt_every = if m == 0x5555_5555_5555_5555 { 3 } else { 0 };
+                    c.interrupt_calls = if m == 0x8080_8080_8080_8080 { 0b0110_1010 } else { 0 };
                     let mut w = crate::choppy::ChoppyWriter::new(k, c.interrupt_every);
                     if f.smx {
                         let v = Smx::read(&mut c).map_err(|_| "rejected".to_string())?;
